@@ -62,8 +62,10 @@ def register(reg, stubs, world):
                            V.is_obj(rl), V.ref(rl) >= st.ghost['$ap0'],
                            eng.val(s1, rl) == V.list(mk_seq([g(d, '_check'), g(old, '_check')])))
         return [
+            # an override is a freshly parsed check, a different object from the registered predecessor's check; that it may
+            # READ like the old default makes no difference (only the very same object would not count as an override)
             ('old-name-override-governs-unless-alias-or-new-name-override',
-             z3.Implies(z3.And(old_governs, z3.Not(textual_eq)), r == frc)),
+             z3.Implies(z3.And(old_governs, z3.Or(z3.Not(textual_eq), frc != g(old, '_check'))), r == frc)),
             ('otherwise-new-default-ORed-with-old-only-when-flag-off-and-check-strings-differ',
              z3.Implies(z3.And(z3.Not(old_governs), ored), is_new_or)),
             ('otherwise-the-new-default', z3.Implies(z3.And(z3.Not(old_governs), z3.Not(ored)), r == g(d, '_check'))),
